@@ -214,6 +214,8 @@ for comp, defs, dsc in (('min', ['TRAITS_DEFAULTS'], 'allocator_adapter<minimal 
             defines=['COMP=%s' % comp, 'API=0', 'KINDSEL=%d' % ks, 'HEAP_SIZE=256'] + defs, unwind=8, timeout=300,
             desc='%s: one throwing %s request and its matching release' % (dsc, 'array' if ks else 'node'),
             bounds='size 1..65535, count 1..8, alignment 1..64 (std style: 1..16), success/failure of the leaf call symbolic')
+# memory_resource_allocator over memory_resource_adapter<leaf> (COMP=mral in the shim): no verdict within 1800 s with either back end
+# (symbolic count*size feeding the adapter's division by max_node_size): not registered, stated as outside the claim
 for sa in ('sa1', 'sa3', 'sa24', 'sa48'):
     add('adapt-misc-1-%s' % sa, ['C09', 'C10'], 'adapt', 'adapt_misc.c', config='release', defines=['CASE=1', 'SA=%s' % sa, 'HEAP_SIZE=512'], unwind=8, timeout=300,
         desc='std_allocator<T, leaf>::allocate(n)/deallocate(p, n), T = %s' % sa, bounds='n 1..5')
